@@ -32,7 +32,12 @@ class Prop:
                   "callingPendingFunctors_ still set, so a queueInLoop() made by such a destructor is followed by a wake-up "
                   "(dtor_queue_is_woken; negation witness for the earlier order — flag reset first — in which the loop ends "
                   "asleep in poll with the functor queued and no thread able to move); the functor of an inline runInLoop() "
-                  "dies when the call returns; a loop asleep with work queued is never all-blocked; when "
+                  "dies when the call returns; loop() may be entered again after it has returned (the owner's program continues "
+                  "with further segments run outside loop(), each followed by another call; the queue, the eventfd and the "
+                  "submission order go on across runs): a functor queued between two runs — by the owner or by a foreign "
+                  "thread — is accompanied by a pending or imminent wake-up, the owner's own queueInLoop there writes the eventfd "
+                  "because looping_ is false (queued_between_runs_is_woken, owner_queue_between_runs_wakes); "
+                  "a loop asleep with work queued is never all-blocked; when "
                   "loop() has returned, every functor appended before its last test of the queue — by a foreign thread, by the "
                   "loop thread itself from a functor of the final drain, before or after quit() — has been started, in order "
                   "(executed = the first retMark appends; what is still queued was appended later by another thread); negation "
@@ -46,7 +51,9 @@ class Prop:
                   "scheduler and the harness, pthreads/eventfd/poll as documented. Timer callbacks are not a separate context: "
                   "they run from the timerfd channel's read handler, i.e. in the dispatch phase like the pipe handler used here.")
     rule = ("programs: 2..6 tasks whose bodies submit higher-numbered tasks (queueInLoop / runInLoop / a byte for the pipe "
-            "handler / quit); in half of the programs 40 % of the tasks have a destructor body (`dtor <id>`: the functor "
+            "handler / quit); 30 % of the plain programs enter loop() again once or twice after it has returned (`again:` "
+            "segments: 0..2 submissions by the owner between the runs, a quit() there in a quarter of them, foreign threads "
+            "whose programs span the runs and end with another quit()); in half of the programs 40 % of the tasks have a destructor body (`dtor <id>`: the functor "
             "submitted for the task solely owns an object whose destructor submits 1..2 higher-numbered tasks, 12 % of these "
             "programs call quit() from such a destructor); 0..3 submissions by the owner before loop(), 0..3 foreign threads with 1..4 calls each, quit() "
             "from a foreign thread, a task, before loop(), twice, or never; EventLoopThread programs (startLoop, submissions, "
@@ -56,7 +63,8 @@ class Prop:
             "the drain after the `while`; a foreign submission after every number of steps of a loop thread that runs a batch, "
             "destroys its functor objects — one destructor queues, one runs a task inline whose own functor queues when it "
             "dies — and goes back to poll; a quit() at every step of a chain of destructor bodies that keep the final drain "
-            "going), and — thorough tier — every schedule of eight small programs "
+            "going; a foreign submission at every step of two runs of loop() and of the stretch between them, the owner "
+            "queueing / running inline / doing nothing before the second call), and — thorough tier — every schedule of eight small programs "
             "within 1..3 preemptions (three of them aim at the silent switch point the harness offers immediately before "
             "handleRead()'s read of the eventfd: a foreign queueInLoop()+wakeup() inside that window, a further foreign "
             "submission once the loop is back in poll; the same three are enumerated first whenever an obligation or a tie "
@@ -76,7 +84,8 @@ class Prop:
     ]
     assumptions = [
         "poll() returns when a registered descriptor is readable (C09 is the property about the pollers)",
-        "task bodies and destructor bodies terminate; loop() is called once per EventLoop (the model does not re-enter loop())",
+        "task bodies and destructor bodies terminate; loop() is entered again only by the owner thread after it has returned "
+        "(plain scenario; the EventLoopThread scenario calls loop() once)",
         "functors that are still queued when the EventLoop object itself is destroyed die unexecuted inside ~EventLoop; what "
         "their destructors do then is not modelled (the harness skips such a destructor body: there is no loop to talk to)",
         "a functor appended after the loop's last test of the queue (`while (queueSize() > 0)` found it empty) is not run: "
